@@ -3,7 +3,8 @@
 //!
 //! header: `fallback strategy=<value|value_fn|from_error|from_request_error|service|exception>
 //!          [handle=<bit mask over error kinds>] val=<n> [ready=<script>] [bready=<script>]
-//!          [via=<builder|short|default>] [upper=<strategy> [uhandle=<mask>] [uval=<n>] [uvia=…]]`
+//!          [via=<builder|short|default>] [upper=<strategy> [uhandle=<mask>] [uval=<n>] [uvia=…]]
+//!          [chain=<setter>.<setter>.…]`
 //!          `ready=`: the wrapped service answers successive `poll_ready` calls (on any clone) from
 //!          the script ('r' ready, 'p' pending, 'e' error `IErr{9,0}`; ready once exhausted) —
 //!          `Inner::strict`; `bready=`: the same for the backup service of the service strategy,
@@ -19,6 +20,11 @@
 //!          `FallbackFailed(e)` -> kind `2·e.kind+1` (so a predicate mask addresses (variant, kind) and every
 //!          function logs which variant it was handed); they log `upredicate …` / `ustrategy …`. Every strategy
 //!          but the backup service (`upper=service` is ignored).
+//!          `chain=`: the layer is built by exactly this sequence of builder calls (instead of `strategy=` / `handle=` /
+//!          `order=`, which are then ignored): a strategy setter `value[:<n>]`, `value_fn[:<n>]` (n instead of `val`),
+//!          `from_error`, `from_request_error`, `service`, `exception`; `h<mask>` = `.handle(<mask predicate>)`; `n` =
+//!          `.name(..)`. Any number of each, in any order (a chain without a strategy setter is ignored: `build()`
+//!          would panic). Each setter gets its own closure (an own counter for every `value_fn`).
 //! arrive: `arrive <c> tag=<t> inner=<lat>:<out>[,<lat>:<out> for the backup call] [post=<steps>] [svc=<k>] [reuse=1]`
 //!          the caller clones the service and polls it ready ONCE: pending -> `result c notready`
 //!          (it gives up), error -> `resp`/`result` lines with that error rendered like a call error
@@ -104,6 +110,44 @@ fn via_of(s: Option<&str>) -> Via {
     }
 }
 
+const STRATEGY_SETTERS: [&str; 6] = ["value", "value_fn", "from_error", "from_request_error", "service", "exception"];
+
+/// `chain=<setter>.<setter>.…` as (setter, argument): `value:7` -> ("value", 7), `h6` -> ("h", 6), `n` -> ("n", -);
+/// `None` without the key or without a strategy setter in it
+fn chain_of(kv: &Kv) -> Option<Vec<(String, Option<u64>)>> {
+    let mut out = Vec::new();
+    for tok in kv.get("chain")?.split('.') {
+        let (name, arg) = match tok.split_once(':') {
+            Some((n, a)) => (n, a.parse::<u64>().ok()),
+            None => (tok, None),
+        };
+        if STRATEGY_SETTERS.contains(&name) {
+            out.push((name.to_string(), arg));
+        } else if name == "n" {
+            out.push(("n".to_string(), None));
+        } else if let Some(m) = name.strip_prefix('h').and_then(|m| m.parse::<u64>().ok()) {
+            out.push(("h".to_string(), Some(m)));
+        }
+    }
+    if out.iter().any(|(n, _)| STRATEGY_SETTERS.contains(&n.as_str())) {
+        Some(out)
+    } else {
+        None
+    }
+}
+
+/// the strategy a `probe strategy` builds by hand: the header's — after a chain, the one named last
+fn strategy_in_force(kv: &Kv) -> (String, u64) {
+    let val = kv.u64("val", 0);
+    match chain_of(kv) {
+        Some(chain) => {
+            let (n, a) = chain.iter().rev().find(|(n, _)| STRATEGY_SETTERS.contains(&n.as_str())).cloned().unwrap();
+            (n, a.unwrap_or(val))
+        }
+        None => (kv.str("strategy", "value"), val),
+    }
+}
+
 fn build_lower(kv: &Kv) -> LowLayer {
     let val = kv.u64("val", 0);
     type B = FallbackConfigBuilder<Req, Resp, IErr>;
@@ -112,7 +156,7 @@ fn build_lower(kv: &Kv) -> LowLayer {
     let handle_mask = kv.opt_u64("handle");
     // the test functions
     let value = Resp { v: val, c: 0, tag: 0 };
-    let value_fn = {
+    let mk_value_fn = |val: u64| {
         let n = Arc::new(AtomicU64::new(0));
         move || {
             let i = n.fetch_add(1, Ordering::SeqCst);
@@ -120,6 +164,7 @@ fn build_lower(kv: &Kv) -> LowLayer {
             Resp { v: val + i, c: 0, tag: 1 }
         }
     };
+    let value_fn = mk_value_fn(val);
     let from_error = |e: &IErr| {
         log(format!("strategy from_error {} {}", e.kind, e.v));
         Resp { v: e.v, c: 0, tag: e.kind as u64 }
@@ -154,6 +199,34 @@ fn build_lower(kv: &Kv) -> LowLayer {
         }
     };
     let via = via_of(kv.get("via"));
+    let mask_pred = |mask: u64| {
+        move |e: &IErr| {
+            let r = e.kind < 64 && (mask >> e.kind) & 1 == 1;
+            log(format!("predicate {} {} {}", e.kind, e.v, r as u8));
+            r
+        }
+    };
+    if let Some(chain) = chain_of(kv) {
+        // the builder calls of the header's chain, one by one, in that order
+        let mut b = match via {
+            Via::Default => B::default(),
+            _ => LowLayer::builder(),
+        };
+        for (name, arg) in chain {
+            b = match name.as_str() {
+                "value" => b.value(Resp { v: arg.unwrap_or(val), c: 0, tag: 0 }),
+                "value_fn" => b.value_fn(mk_value_fn(arg.unwrap_or(val))),
+                "from_error" => b.from_error(from_error),
+                "from_request_error" => b.from_request_error(from_request_error),
+                "service" if bready.is_none() => b.service(backup_plain.clone()),
+                "service" => b.service(backup_scripted.clone()),
+                "exception" => b.exception(exception),
+                "h" => b.handle(mask_pred(arg.unwrap_or(0))),
+                _ => b.name("verif"),
+            };
+        }
+        return b.build();
+    }
     if let (Via::Short, None) = (&via, handle_mask) {
         // the shortcut constructors (layer.rs:45-152): the strategy and nothing else
         return match strategy_name.as_str() {
@@ -179,11 +252,7 @@ fn build_lower(kv: &Kv) -> LowLayer {
     };
     let handle = move |b: B| -> B {
         match handle_mask {
-            Some(mask) => b.handle(move |e: &IErr| {
-                let r = e.kind < 64 && (mask >> e.kind) & 1 == 1;
-                log(format!("predicate {} {} {}", e.kind, e.v, r as u8));
-                r
-            }),
+            Some(mask) => b.handle(mask_pred(mask)),
             None => b,
         }
     };
@@ -460,8 +529,7 @@ impl Mw for Adapter {
             return;
         }
         // a strategy value built by hand (the variants and the function types are public), cloned; the CLONE is used
-        let val = self.kv.u64("val", 0);
-        let name = self.kv.str("strategy", "value");
+        let (name, val) = strategy_in_force(&self.kv);
         let original: FallbackStrategy<Req, Resp, IErr> = match name.as_str() {
             "value_fn" => FallbackStrategy::ValueFn(Arc::new(move || Resp { v: val, c: 0, tag: 1 })),
             "from_error" => FallbackStrategy::FromError(Arc::new(|e: &IErr| Resp { v: e.v, c: 0, tag: e.kind as u64 })),
